@@ -19,7 +19,7 @@ def modules(ctx):
     ea = [e for e in ents if e.split('_')[1] in ('add', 'remove', 'query')]
     eb = [e for e in ents if e.split('_')[1] in ('intersect', 'setops')]
     ma = V.Module(ctx, 'c16a', ['coverage.cc'], 'c16.cc', ea, defs=('VP_W=%d' % W,), native_libs=('-ldl',), traps=('_M_realloc_insert',))
-    mb = V.Module(ctx, 'c16b', ['coverage.cc'], 'c16.cc', eb, defs=('VP_W=%d' % W,), native_libs=('-ldl',),
+    mb = V.Module(ctx, 'c16b', ['coverage.cc'], 'c16.cc', eb, defs=('VP_W=%d' % (3 if ctx.tier == 'quick' else 4),), native_libs=('-ldl',),
                   stubs=('cxxrt.c', 'vp_cbmc.c', 'ostream_null.c', 'vec_model.c'),
                   overrides=('_ZNSt6vectorI9cov_rangeSaIS0_EE17_M_realloc_insertIJRKS0_EEEvN9__gnu_cxx17__normal_iteratorIPS0_S2_EEDpOT_',
                              '_ZNSt6vectorI9cov_rangeSaIS0_EE17_M_realloc_insertIJS0_EEEvN9__gnu_cxx17__normal_iteratorIPS0_S2_EEDpOT_'))
